@@ -581,7 +581,8 @@ def run_unit(unit, ctx):
 
 
 def finish(merged, plan, ctx):
-    plan["cap_hit"] = merged["counters"].get("collections_above_permutation_limit", 0) > 0
+    if not plan.get("cap_hit"):
+        plan["cap_hit"] = merged["counters"].get("collections_above_permutation_limit", 0) > 0
 
 
 def replay(case, ctx):
